@@ -2234,7 +2234,191 @@ def _n89(fn, counter):
     return False
 
 
+def _n99(tree):
+    """N99 one three-valued map for two sets: a recursive function with a parameter D that is only ever asked `K in D`, read as `D[K]`,
+    written `D[K] = False` / `D[K] = True` (one K throughout), handed on to itself, and started with `dict()` / `{}` by its callers -
+    absent / False / True are the three colours of a depth-first walk.  D is the pair (OPEN, DONE) of sets: `D[K] = False` (K not in D:
+    the store follows an `if K in D:` that leaves) is `OPEN.add(K)`; `D[K] = True` is `OPEN.discard(K); DONE.add(K)`; `D[K]` is
+    `K in DONE`; `if K in D: if D[K]: S(leaving); REST` is `if K in DONE: S` + `if K in OPEN: REST`; any other `K in D` is
+    `K in OPEN or K in DONE`.  Anything else that touches D: the function is left as it is."""
+    funcs = [(n, h) for h in ast.walk(tree) if isinstance(h, (ast.Module, ast.ClassDef)) for n in h.body if isinstance(n, ast.FunctionDef)]
+    for g, holder in funcs:
+        params = [a.arg for a in g.args.args]
+        if g.args.defaults or g.args.vararg or g.args.kwarg or g.args.kwonlyargs or g.decorator_list:
+            continue
+        meth = isinstance(holder, ast.ClassDef)
+        names = {g.name}
+        if meth and g.name.startswith('__') and not g.name.endswith('__'):
+            names.add('_%s%s' % (holder.name.lstrip('_'), g.name))
+
+        def is_self_call(c):
+            return isinstance(c, ast.Call) and ((isinstance(c.func, ast.Attribute) and c.func.attr in names) or (
+                isinstance(c.func, ast.Name) and c.func.id in names))
+        for pi, D in enumerate(params):
+            if pi < (2 if meth else 1):
+                continue
+            uses = [n for n in ast.walk(g) if isinstance(n, ast.Name) and n.id == D]
+            if not uses:
+                continue
+            parent = {}
+            for n in ast.walk(g):
+                for ch in ast.iter_child_nodes(n):
+                    parent[id(ch)] = n
+            keys = set()
+            ok = True
+            stores_f, stores_t, tests, reads, passes, gets = [], [], [], [], [], []
+            ai = pi - (1 if meth else 0)        # position among the call's arguments
+            for u in uses:
+                par = parent.get(id(u))
+                if isinstance(par, ast.Compare) and len(par.ops) == 1 and isinstance(par.ops[0], (ast.In, ast.NotIn)) and par.comparators[0] is u:
+                    keys.add(ast.unparse(par.left))
+                    tests.append(par)
+                elif isinstance(par, ast.Subscript) and par.value is u:
+                    keys.add(ast.unparse(par.slice))
+                    if isinstance(par.ctx, ast.Load):
+                        reads.append(par)
+                    else:
+                        st = parent.get(id(par))
+                        if isinstance(st, ast.Assign) and len(st.targets) == 1 and st.targets[0] is par and isinstance(st.value, ast.Constant) \
+                                and st.value.value in (True, False) and isinstance(st.value.value, bool):
+                            (stores_t if st.value.value else stores_f).append(st)
+                        else:
+                            ok = False
+                elif is_self_call(par) and not par.keywords and ai < len(par.args) and par.args[ai] is u:
+                    passes.append(par)
+                elif isinstance(par, ast.Attribute) and par.attr == 'get' and isinstance(parent.get(id(par)), ast.Call) \
+                        and len(parent[id(par)].args) == 1 and not parent[id(par)].keywords \
+                        and isinstance(parent.get(id(parent[id(par)])), ast.Assign) and len(parent[id(parent[id(par)])].targets) == 1 \
+                        and isinstance(parent[id(parent[id(par)])].targets[0], ast.Name):
+                    keys.add(ast.unparse(parent[id(par)].args[0]))
+                    gets.append(parent[id(parent[id(par)])])
+                else:
+                    ok = False
+            if not ok or len(keys) != 1 or not stores_f or not stores_t or not passes or len(gets) > 1:
+                continue
+            K = next(iter(keys))
+            # the colour looked up once: `v = D.get(K); if v: S(leaving); if v is not None: REST(leaving)` -> the two membership tests
+            if gets:
+                ga = gets[0]
+                v = ga.targets[0].id
+                done_get = False
+                for holder_, fld, blk in list(_blocks(g)):
+                    if ga in blk:
+                        i = blk.index(ga)
+                        nx, nx2 = (blk[i + 1] if i + 1 < len(blk) else None), (blk[i + 2] if i + 2 < len(blk) else None)
+                        vuses = [n for n in ast.walk(g) if isinstance(n, ast.Name) and n.id == v]
+                        if isinstance(nx, ast.If) and not nx.orelse and isinstance(nx.test, ast.Name) and nx.test.id == v and nx.body \
+                                and isinstance(nx.body[-1], (ast.Return, ast.Raise)) and isinstance(nx2, ast.If) and not nx2.orelse \
+                                and isinstance(nx2.test, ast.Compare) and len(nx2.test.ops) == 1 and isinstance(nx2.test.ops[0], ast.IsNot) \
+                                and isinstance(nx2.test.left, ast.Name) and nx2.test.left.id == v and isinstance(nx2.test.comparators[0], ast.Constant) \
+                                and nx2.test.comparators[0].value is None and nx2.body and isinstance(nx2.body[-1], (ast.Return, ast.Raise)) \
+                                and len(vuses) == 3:
+                            kd = ast.parse('%s in %s' % (K, D), mode='eval').body
+                            rd = ast.parse('%s[%s]' % (D, K), mode='eval').body
+                            inner = ast.If(rd, nx.body, [])
+                            outer = ast.If(kd, [inner] + nx2.body, [])
+                            ast.copy_location(inner, nx)
+                            ast.copy_location(outer, nx)
+                            ast.fix_missing_locations(outer)
+                            blk[i:i + 3] = [outer]
+                            tests.append(kd)
+                            reads.append(rd)
+                            done_get = True
+                        break
+                if not done_get:
+                    continue
+            # every store of False follows, in its block, an `if K in D:` that leaves
+            blocks = list(_blocks(g))
+
+            def guarded_entry(st):
+                for holder_, fld, blk in blocks:
+                    if st in blk:
+                        for prev in blk[:blk.index(st)]:
+                            if isinstance(prev, ast.If) and not prev.orelse and isinstance(prev.test, ast.Compare) and prev.test in tests \
+                                    and isinstance(prev.test.ops[0], ast.In) and prev.body and isinstance(prev.body[-1], (ast.Return, ast.Raise)):
+                                return True
+                return False
+            if not all(guarded_entry(st) for st in stores_f):
+                continue
+            # callers: every other reference to the function is a call that starts D with an empty dict
+            outer_calls = []
+            bad = False
+            for n in ast.walk(tree):
+                if is_self_call(n) and not any(n is c for c in passes):
+                    if n.keywords or ai >= len(n.args):
+                        bad = True
+                        break
+                    a = n.args[ai]
+                    if (isinstance(a, ast.Dict) and not a.keys) or (isinstance(a, ast.Call) and isinstance(a.func, ast.Name) and a.func.id == 'dict'
+                                                                    and not a.args and not a.keywords):
+                        outer_calls.append(n)
+                    else:
+                        bad = True
+                        break
+            if bad or not outer_calls:
+                continue
+            OPEN, DONE = D + '_open', D + '_done'
+            if any(isinstance(n, ast.Name) and n.id in (OPEN, DONE) for n in ast.walk(g)):
+                continue
+
+            def key():
+                return ast.parse(K, mode='eval').body
+
+            def member(setname):
+                return ast.Compare(key(), [ast.In()], [ast.Name(setname, ast.Load())])
+
+            def call(setname, meth_):
+                return ast.Expr(ast.Call(ast.Attribute(ast.Name(setname, ast.Load()), meth_, ast.Load()), [key()], []))
+            # statements
+            for holder_, fld, blk in blocks:
+                i = 0
+                while i < len(blk):
+                    st = blk[i]
+                    if st in stores_f:
+                        blk[i] = ast.copy_location(call(OPEN, 'add'), st)
+                    elif st in stores_t:
+                        blk[i:i + 1] = [ast.copy_location(call(OPEN, 'discard'), st), ast.copy_location(call(DONE, 'add'), st)]
+                        i += 1
+                    elif isinstance(st, ast.If) and not st.orelse and st.test in tests and isinstance(st.test.ops[0], ast.In) and st.body \
+                            and isinstance(st.body[0], ast.If) and not st.body[0].orelse and st.body[0].test in reads \
+                            and isinstance(st.body[0].body[-1], (ast.Return, ast.Raise, ast.Continue)):
+                        first = ast.copy_location(ast.If(member(DONE), st.body[0].body, []), st.body[0])
+                        second = ast.copy_location(ast.If(member(OPEN), st.body[1:] or [ast.Pass()], []), st)
+                        tests.remove(st.test)
+                        reads.remove(st.body[0].test)
+                        blk[i:i + 1] = [first, second]
+                        i += 1
+                    i += 1
+            # remaining expressions
+            class T(ast.NodeTransformer):
+                def visit_Compare(self, n):
+                    self.generic_visit(n)
+                    if n in tests:
+                        e = ast.BoolOp(ast.Or(), [member(OPEN), member(DONE)])
+                        if isinstance(n.ops[0], ast.NotIn):
+                            e = ast.UnaryOp(ast.Not(), e)
+                        return ast.copy_location(e, n)
+                    return n
+
+                def visit_Subscript(self, n):
+                    self.generic_visit(n)
+                    if n in reads:
+                        return ast.copy_location(member(DONE), n)
+                    return n
+            g.body = [T().visit(x) for x in g.body]
+            for c in passes:
+                c.args[ai:ai + 1] = [ast.Name(OPEN, ast.Load()), ast.Name(DONE, ast.Load())]
+            for c in outer_calls:
+                c.args[ai:ai + 1] = [ast.Call(ast.Name('set', ast.Load()), [], []), ast.Call(ast.Name('set', ast.Load()), [], [])]
+            ann = ast.parse('Set[int]', mode='eval').body
+            g.args.args[pi:pi + 1] = [ast.arg(OPEN, copy.deepcopy(ann)), ast.arg(DONE, copy.deepcopy(ann))]
+            ast.fix_missing_locations(tree)
+            break
+    return tree
+
+
 def pre_normalize(tree: ast.Module) -> ast.Module:
+    tree = _n99(tree)
     tree = _n71(tree)
     tree = _n77(tree)
     tree = _n84(tree)
